@@ -147,7 +147,7 @@ def capi_keys():
                      r"ctx\.editor\.process_keyevent\(ctx\.keyboard\.(?P<fn>\w+)\((?P<nar>.*?)\)\);OK", b)
     guarded = 1
     if not g:
-        g = re.fullmatch(re.escape(MUT) + r"letkey=" + remap + r";"
+        g = re.fullmatch(re.escape(MUT) + r"letkey=\{?" + remap + r"\}?;"
                          r"ctx\.editor\.process_keyevent\(ctx\.keyboard\.(?P<fn>\w+)\((?P<nar>.*?)\)\);OK", b)
         guarded = 0
     if not g:
